@@ -43,6 +43,7 @@ const (
 	ReMaintain     = 1 // ReassemblyComplete calls Maintain()
 	RePush         = 2 // the first ReassemblyComplete pushes a fresh record
 	ReLostMaintain = 3 // EventsLost calls Maintain()
+	ReClose        = 4 // the first ReassemblyComplete calls Close() (whoever delivers it, a Close flush included)
 )
 
 // Program is one concurrent test program.
@@ -132,6 +133,9 @@ type sched struct {
 	findings         []Finding
 	reentered        bool
 	reenteredInClose bool
+	reClosed         bool
+	reCloseCalls     int
+	reCloseOK        int
 	noReenter        bool // set for the harness's own final Close
 	goids            []int64
 	closeInvokedStep int // step at which the first Close was invoked (-1 none)
@@ -228,6 +232,20 @@ func (s *sched) ReassemblyComplete(msgs []*auparse.AuditMessage) {
 		}
 	}
 	switch s.p.Reenter {
+	case ReClose:
+		if !s.reClosed && !s.noReenter && s.cbDepth == 0 {
+			s.reClosed = true
+			if s.closeInvokedStep < 0 {
+				s.closeInvokedStep = s.step
+			}
+			s.cbDepth++
+			err := s.r.Close()
+			s.cbDepth--
+			s.reCloseCalls++
+			if err == nil {
+				s.reCloseOK++
+			}
+		}
 	case ReMaintain:
 		if s.cbDepth < 2 {
 			s.cbDepth++
@@ -471,6 +489,7 @@ func Execute(p *Program, prefix []int, chooser func(depth, n int) int) *Run {
 			}
 		}
 	}
+	closes, closeOK = closes+s.reCloseCalls, closeOK+s.reCloseOK // a Close made from inside a callback is a Close call like any other
 	if closes > 0 && closeOK != 1 {
 		s.fail("close-count", "%d of %d concurrent Close calls returned nil (exactly one must)", closeOK, closes)
 	}
